@@ -37,12 +37,13 @@ func init() {
 		target{Dir: "core/flow", Func: "Slot.Check", Name: "flow_Slot_Check_step", LoopBody: 1,
 			RangeVars: map[string]string{"tc": "*TrafficShapingController"},
 			Hints: map[string]hint{
-				"ctx.Resource.Name()":                                  {"", "opaque"},
-				"getTrafficControllerListFor(res)":                     {"", "opaque"},
-				"ctx.RuleCheckResult":                                  {"", "opaque"},
-				"canPassCheck(tc, ctx.StatNode, ctx.Input.BatchCount)": {"", "opaque"},
-				"r.Status()":                                           {"r_status", "uint8"},
-				"r.NanosToWait()":                                      {"r_nanos", "int64"}},
+				"ctx.Resource.Name()":                                     {"", "opaque"},
+				"getTrafficControllerListFor(res)":                        {"", "opaque"},
+				"ctx.RuleCheckResult":                                     {"", "opaque"},
+				"canPassCheck(tc, ctx.StatNode, ctx.Input.BatchCount)":    {"", "opaque"},
+				"checkInLocal(tc, ctx.StatNode, ctx.Input.BatchCount, 0)": {"", "opaque"}, // the same call with canPassCheck unfolded
+				"r.Status()":      {"r_status", "uint8"},
+				"r.NanosToWait()": {"r_nanos", "int64"}},
 			Errs:    map[string]int{"r": 1},
 			Effects: []string{"flowWaitCount."},
 			Acts:    map[string]act{"util.Sleep": {Tag: 1, Keep: []int{0}}}},
